@@ -128,8 +128,14 @@ func VerifLemma_C01C_ProtoFileTarget() {
 		bucket, err = newModuleReadBucketForModule(ctx, nil, module, extra, nil, pft, false)
 	}
 	verifCover("constructor returned")
-	verifAssert((err != nil) == (!hasProtoExt || len(extra) > 0), "constructor rejects exactly non-.proto targets and mixes with paths")
-	if err != nil {
+	// A well-formed request must be accepted. An ill-formed one (non-.proto reference, or a reference mixed with
+	// --path/--exclude-path) is rejected here today, but the same validation also sits in the callers ("TODO FUTURE:
+	// get these validations into a common place"), so where it is rejected is not asserted.
+	illFormed := !hasProtoExt || len(extra) > 0
+	if !illFormed {
+		verifAssert(err == nil, "constructor accepts a .proto reference without paths")
+	}
+	if err != nil || illFormed {
 		return
 	}
 	var path string
